@@ -187,8 +187,14 @@ func runC11Direct(t *testing.T, s C11Scenario) (res Result) {
 		switch m.PresetData {
 		case "header":
 			// a local publish attaches the header itself; the bytes are then not decoded again
+			// (Broadcast attaches exactly the header it marshalled, valid or not)
 			if decoded == nil {
-				decoded = chain.At(uint64(m.At))
+				raw := new(vh.Header)
+				if raw.UnmarshalBinary(data) == nil {
+					decoded = raw // decodes but fails Validate
+				} else {
+					decoded = chain.At(uint64(m.At))
+				}
 			}
 			msg.ValidatorData = decoded
 			extractOK = decoded.Validate() == nil
